@@ -301,7 +301,8 @@ func (s *SMF) WriteTo(f io.Writer) (size int64, err error) {
 	wr := newWriter(s, f)
 	err = wr.WriteHeader()
 	if err != nil {
-		return 0, fmt.Errorf("could not write header: %v", err)
+		// a part of the header may have reached the destination already
+		return wr.output.size, fmt.Errorf("could not write header: %v", err)
 	}
 
 	for _, t := range s.Tracks {
